@@ -378,7 +378,10 @@ class Sym:
     def __int__(self):
         if self.is_int:
             return cur().concretize_int(self.t)
-        raise SymUnsupported("int() of symbolic real (shadow builtin in harness)")
+        # int() truncates toward zero; the feasible values are explored by forking (bounded by what the code established
+        # about the value, e.g. a preceding clip; an unbounded one ends as SymUnsupported = inconclusive)
+        t = self.t
+        return cur().concretize_int(z3.If(t >= 0, z3.ToInt(t), -z3.ToInt(-t)))
 
     def __float__(self):
         v = cur().unique_value(self.t) if cur() is not None else None
